@@ -2,7 +2,7 @@
 import itertools
 from fractions import Fraction as F
 
-from lib import flatcorr, framework as fw
+from lib import configs, econ, flatcorr, framework as fw, runner
 
 META = {
     'props': 'Props/C16.v',
@@ -10,10 +10,13 @@ META = {
                    'inflation setting the modelled schedule equals min(start + max(0, i-s)*rate, end) + PTC_i with PTC only inside its '
                    'window, zero in construction years (9 Coq theorems by induction on the lifetime, axiom-free). The model is tied to the '
                    'current BuildPTCModel/BuildPricingModel by executing them on exact rationals over an exhaustive small integer domain '
-                   'plus random tuples and comparing inside Coq for equality, so an off-by-one in a start year or window is a failing input.'),
+                   'plus random tuples and comparing inside Coq for equality, so an off-by-one in a start year or window is a failing input; which '
+                   'inputs feed which product is tied by the price columns of whole runs (all four products, zero-padded for the construction '
+                   'years) recomputed by the Coq model from the run\'s own inputs, and the ITC identity RITCValue = rate x pre-credit cost, '
+                   'CCap = (1-rate) x cost + fees - incentives - grants is proved of the roll-up model and evaluated on every run.'),
     'level_note': ('Trusted: Coq kernel + vm_compute; the Python harness that calls the real functions on Fractions and writes the case '
-                   'files; rounding of float arithmetic is outside the theorem (schedule arithmetic is exact on rationals). The ITC/grant '
-                   'clause is checked on whole-run snapshots under C03 (same roll-up code).'),
+                   'files; rounding of float arithmetic is outside the theorem (schedule arithmetic is exact on rationals; whole-run columns are '
+                   'compared at 1e-12). The O&M fee / tax-relief arithmetic is checked component by component under C03 (same roll-up code).'),
     'rule': ('tuples (lifetime, PTC duration, PTC price, inflation flag+rate, start/end price, escalation start, rate) '
              'drawn from one PRNG plus an exhaustive small integer domain; the real BuildPTCModel/BuildPricingModel are '
              'executed on fractions.Fraction arguments (exact arithmetic) and compared for equality inside Coq with the '
@@ -28,7 +31,8 @@ META = {
     'assumptions': ['floating-point rounding of the schedule arithmetic is not modelled: the functions are executed on exact '
                     'rationals (duck typing) so the comparison is equality; a float run can differ from the rational '
                     'schedule by rounding only'],
-    'fingerprint': [('src/geophires_x/Economics.py', 'BuildPTCModel'), ('src/geophires_x/Economics.py', 'BuildPricingModel')],
+    'fingerprint': [('src/geophires_x/Economics.py', 'BuildPTCModel'), ('src/geophires_x/Economics.py', 'BuildPricingModel'),
+                    ('src/geophires_x/Economics.py', 'Economics.Calculate')],
 }
 
 
@@ -93,7 +97,57 @@ def gen_cases(ctx):
     return cases
 
 
+def whole_runs(ctx):
+    """which parameters feed which product's schedule: the price columns of real runs (snapshot, zero-padded for the
+    construction years) against product_schedule applied to the run's own price / PTC inputs."""
+    rnd = ctx.rng
+    cfgs = [configs.synthetic(rnd, addons=False) for _ in range(ctx.n(60, 1500))]
+    texts = [runner.params_to_text(c) for c in cfgs] + [t for _, t in configs.example_texts(slow=False)]
+    cases, itc_terms, itc_owner = [], [], []
+    for text, r in zip(texts, runner.run_many(ctx, texts)):
+        if not r['ok'] or r['snap'] is None:
+            ctx.count('price-columns', rejected={(r['error'] or 'no snapshot')[:50]: 1})
+            continue
+        R = econ.Run(r['snap'])
+        if R.cls not in ('Economics', 'SBTEconomics'):
+            continue
+        P = lambda a: R.s.p('economics', a)
+        q = econ.q15
+        pre = f'({q(P("CCap")["value"])} + {q(P("RITCValue")["value"])} - {q(P("FlatLicenseEtc")["value"])} + {q(P("OtherIncentives")["value"])} + {q(P("TotalGrant")["value"])})'
+        rate = q(P('RITC')['value']) if P('RITC')['provided'] else '0'
+        itc_terms.append(f'close_scale (1#1000000000) {pre} ({rate} * {pre}) {q(P("RITCValue")["value"])}')
+        itc_owner.append((text, {'RITC': P('RITC')['value'], 'provided': bool(P('RITC')['provided']), 'RITCValue': P('RITCValue')['value'],
+                                 'CCap': P('CCap')['value'], 'grant': P('TotalGrant')['value']}))
+        for prod, ptc in (('Elec', 'PTCElec'), ('Heat', 'PTCHeat'), ('Cooling', 'PTCCooling'), ('Carbon', None)):
+            prov = bool(P(ptc)['provided']) if ptc else False
+            flat = [F(R.life), F(int(prov)), F(int(P('PTCDuration')['value'])), F(P(ptc)['value']) if ptc else F(0),
+                    F(int(bool(P('PTCInflationAdjusted')['value']))), F(P('RINFL')['value']), F(P(prod + 'StartPrice')['value']),
+                    F(P(prod + 'EndPrice')['value']), F(int(P(prod + 'EscalationStart')['value'])), F(P(prod + 'EscalationRate')['value']),
+                    F(R.cy)]
+            series = P(prod + 'Price')['value']
+            desc = {'product': prod, 'life': R.life, 'cy': R.cy, 'ptc_provided': prov, 'esc': int(P(prod + 'EscalationStart')['value']),
+                    'dur': int(P('PTCDuration')['value'])}
+            nontrivial = (prod, R.life, R.cy, prov, desc['esc'] < R.life) if R.life >= 2 else None
+            cases.append({'flat': flat, 'impl': ('V', series), 'desc': desc, 'nontrivial': nontrivial, 'text': text})
+    key = lambda c: 'price-column:%s:ptc=%s' % (c['desc']['product'], c['desc']['ptc_provided'])
+    failing = flatcorr.run(ctx, 'price-columns', ['Model.Price'], 'run_schedule', F(1, 10 ** 12), cases, kind='property', key_of=key,
+                           what='price column of a whole run differs from the documented schedule of that product\'s own inputs')
+    bad = fw.kernel_bools(ctx, 'itc', ['Base.Flat'], itc_terms)
+    ctx.count('itc-identity', evaluations=len(itc_terms), nontrivial_keys=[('itc', o[1]['RITC'], o[1]['grant']) for o in itc_owner if o[1]['provided']])
+    if itc_owner:
+        ctx.sample('itc-identity', itc_owner[0][1])
+    for i in bad[:3]:
+        ctx.violate('property', 'itc:value', f'RITCValue is not rate x pre-credit capital cost on {itc_owner[i][1]}',
+                    inp={'part': 'price-columns', 'desc': itc_owner[i][1], 'input_text': itc_owner[i][0]})
+    for v in ctx.violations:
+        if v.inp and v.inp.get('part') == 'price-columns' and 'input_text' not in v.inp:
+            i = next((j for j in failing if cases[j]['desc'] == v.inp['desc']), None)
+            if i is not None:
+                v.inp['input_text'] = cases[i]['text']
+
+
 def correspondence(ctx, proofs_ok=True):
+    whole_runs(ctx)
     cases = gen_cases(ctx)
     ptc = [c for c in cases if c['fn'] == 'ptc']
     pr = [c for c in cases if c['fn'] == 'pricing']
@@ -108,6 +162,12 @@ def correspondence(ctx, proofs_ok=True):
 def replay(ctx, data):
     E = _impl()
     d = data['input']['desc']
+    if data['input'].get('part') == 'price-columns':
+        print('price column case', d, '- re-running the whole-run part')
+        whole_runs(ctx)
+        for v in ctx.violations:
+            print(v.kind, v.key, v.what[:300])
+        return 1 if ctx.violations else 0
     cs = _case(E, d['life'], d['dur'], F(d['ptc']), d['adj'], F(d['infl']), F(d['start']), F(d['endp']), d['esc'], F(d['rate']))
     bad = 0
     for c in cs:
